@@ -416,9 +416,13 @@ func e1RunWordInner(sc e1Scen, word []sym, scratch string, props map[string]bool
 					r.faulted = true
 				}
 			}
-			if !r.apply(u) && !r.faulted {
+			ok := r.apply(u)
+			if !ok && !r.faulted {
 				r.add("ALL", "write-error", "write %d (%s) failed: %s", r.writeErrAt, s, r.writeErr)
 				return r, i, nil
+			}
+			if !ok && sc.Prop == "C07" {
+				break // Close follows the first Write that failed (a later Write panics on the missing segment: known finding of C18)
 			}
 			after()
 			if len(r.viols) > 0 {
